@@ -53,7 +53,9 @@ def random_match_case(rng, exact=True, scope="in"):
         ys = [Fraction(rng.randint(-9, 9)) for _ in range(n)]
         ycont = rng.choice(["int", "list"])
     mode = rng.choice(["search", "search", "positions", "indices"])
-    strategy = rng.choice(["closest", "closest", "lower", "higher"]) if mode == "search" else "closest"
+    # (explicitly given fixed points are matched to the CLOSEST reference points whatever search strategy is named: the strategy
+    #  only steers the search mode - seed C01i forwarded it to the reference lookup of the explicit modes)
+    strategy = rng.choice(["closest", "closest", "lower", "higher"]) if mode == "search" else rng.choice(["closest", "lower", "higher"])
     xref = []
     for i in fpi:
         lo = (xs[i] - xs[i - 1]) if i > 0 else Fraction(1)
